@@ -64,8 +64,15 @@ def run(ctx):
     cfg = open(os.path.join(VERIF, "spec", SPEC, "Trace.cfg")).read()
     alltr = []
     states = trans = 0
+    dropped = 0
     for out, _ in outs:
-        alltr += split(out)
+        for t in split(out):
+            if any(e["e"] == "HarnessTimeout" for e in t):
+                dropped += 1        # the harness gave up waiting (machine load): the run carries no verdict
+            else:
+                alltr.append(t)
+    if dropped * 10 > len(alltr):
+        raise Inconclusive("%d of %d framing runs timed out in the harness" % (dropped, dropped + len(alltr)))
 
     def val(part):
         return tracecheck.validate(ctx, SPEC, "Trace_Framing", cfg, part[1], name="trace-%d" % part[0], reset={"e": "End"})
@@ -115,7 +122,7 @@ def run(ctx):
         "rule": "streams of 1-5 packets with lengths around 4, the 4096-byte read buffer and the configured maximum (16 .. 10 MB), "
                 "illegal lengths 0/1/3/max+1, cut into chunks (single bytes, inside headers, all at once, packet aligned, random); "
                 "distinct = distinct event traces",
-        "model_checking": mc, "by_side": sides, "traces_with_protocol_error": bad,
+        "model_checking": mc, "runs_dropped_for_harness_timeout": dropped, "by_side": sides, "traces_with_protocol_error": bad,
         "hook_hits": dict(zip(["scenarios", "-", "tcp.recv.read", "tcp.handleConn", "client.recv.read", "client.recv.pkg", "parseError"], hooks)),
         "selftest_corrupted_traces": selftest, "exhaustive": False,
     }
